@@ -222,6 +222,25 @@ Proof.
   exists L2. auto.
 Qed.
 
+(* ------------------------------------------------------------------ several aggregates in one store *)
+(* a later partitioning (of the same or of another aggregate of the store) whose graph ids are not in use by an
+   earlier result leaves that earlier result exactly what it was: the partitions of ITS aggregate *)
+Lemma earlier_result_unchanged st garm1 A1 sup1 fresh1 st1 dgs1 garm2 A2 sup2 fresh2 st2 dgs2 :
+  sget st garm1 = Some A1 -> wfb A1 = true -> uuid_fresh garm1 sup1 fresh1 (c_ids (catalog_delegations A1)) ->
+  st_generate_adms st garm1 sup1 fresh1 = (st1, Ok dgs1) ->
+  sget st1 garm2 = Some A2 -> wfb A2 = true -> uuid_fresh garm2 sup2 fresh2 (c_ids (catalog_delegations A2)) ->
+  st_generate_adms st1 garm2 sup2 fresh2 = (st2, Ok dgs2) ->
+  (forall gid, In gid (map snd dgs1) -> ~ In gid (map snd dgs2)) ->
+  exists L1, generate_adms A1 = Ok L1 /\
+    forall d P, In (d, P) L1 -> sget st2 (gid_for sup1 fresh1 d) = Some P.
+Proof.
+  intros H1 W1 U1 R1 H2 W2 U2 R2 Hdis.
+  destruct (store_level _ _ _ _ _ _ _ H1 W1 U1 R1) as [L1 [G1 [D1 [_ [P1 _]]]]].
+  destruct (store_level _ _ _ _ _ _ _ H2 W2 U2 R2) as [L2 [_ [_ [_ [_ B2]]]]].
+  exists L1. split; [exact G1|]. intros d P Hi. rewrite B2; [apply P1; exact Hi|].
+  apply Hdis. rewrite D1, map_map. simpl. apply in_map_iff. exists (d, P). auto.
+Qed.
+
 (* ------------------------------------------------------------------ the gap: closure is one hop deep *)
 (* a -L1- b -L2- c, only a carries a delegation (capacity, id 1).  b is kept as the peer of a; b's other
    link L2 and its peer c are not. *)
